@@ -229,6 +229,19 @@ class Ctx:
         cmd += [os.path.join(SPEC, module + ".tla")]
         t = time.time()
         r = self.run(cmd, timeout=timeout, env=env, cwd=SPEC)
+        if r.returncode not in (0, 12, 13, 124) and "Parsing or semantic analysis failed" not in (r.stdout or ""):
+            # TLC itself failed (a Java exception - out of memory on a loaded machine - or an evaluation error):
+            # one more attempt tells the two apart; the first lines that name the error are kept for the report
+            first = [ln for ln in (r.stdout or "").splitlines() if ln.startswith("Error:") or "Exception" in ln
+                     or "OutOfMemory" in ln][:6]
+            shutil.rmtree(meta, ignore_errors=True)
+            time.sleep(5)
+            r = self.run(cmd, timeout=timeout, env=env, cwd=SPEC)
+            if r.returncode not in (0, 12, 13):
+                r.stdout = "first attempt: " + " | ".join(first) + "\n" + (r.stdout or "")
+            else:
+                self.notes.append("a TLC run (%s/%s) failed once (%s) and succeeded when repeated" %
+                                  (module, cfg, "; ".join(first)[:300] or "rc"))
         shutil.rmtree(meta, ignore_errors=True)
         for f in glob.glob(os.path.join(SPEC, "*_TTrace_*")) + glob.glob(os.path.join(SPEC, "*.dump")):
             try:
